@@ -235,7 +235,7 @@ func runWorker(bin, prop, tier string, seed uint64, from, stride int64, deadline
 		args := []string{"-prop", prop, "-tier", tier, "-seed", fmt.Sprint(seed), "-from", fmt.Sprint(next), "-stride", fmt.Sprint(stride),
 			"-count", fmt.Sprint(count), "-budget", left.String()}
 		cmd := exec.Command(bin, args...)
-		cmd.Env = append(os.Environ(), "GOMAXPROCS=2", "GORACE=halt_on_error=0")
+		cmd.Env = append(os.Environ(), "GOMAXPROCS=2", "GORACE=halt_on_error=1 exitcode=66")
 		var stderr bytes.Buffer
 		cmd.Stderr = &stderr
 		stdout, err := cmd.StdoutPipe()
@@ -265,10 +265,15 @@ func runWorker(bin, prop, tier string, seed uint64, from, stride int64, deadline
 		killer.Stop()
 		es := stderr.String()
 		if race && strings.Contains(es, "WARNING: DATA RACE") {
-			a.mu.Lock()
-			a.notes["race-report-on-stderr"]++
-			a.mu.Unlock()
-			raceReports <- es
+			// the detector halts the worker at the first report: the run in progress is the one after the last outcome
+			idx := next + n*stride
+			sig, rep := raceSignature(es)
+			o := &Outcome{Seed: 0, Index: idx, Prop: prop, Family: "race", Verdict: "violation", Kernel: "race", Nontrivial: true,
+				Violations: []Violation{{Sig: sig, Detail: rep}}, History: strings.Split(rep, "\n")}
+			a.add(o)
+			done += n + 1
+			next = idx + stride
+			continue
 		}
 		if err != nil {
 			return fmt.Errorf("worker failed (from=%d): %v\n%s", next, err, tail(es, 4000))
@@ -309,19 +314,110 @@ func loadFindings() []Finding {
 	return f.Findings
 }
 
+// sigMatch: '*' in a pattern matches any (possibly empty) run of characters.
 func sigMatch(pattern, sig string) bool {
-	if strings.HasSuffix(pattern, "*") {
-		return strings.HasPrefix(sig, strings.TrimSuffix(pattern, "*"))
+	parts := strings.Split(pattern, "*")
+	if len(parts) == 1 {
+		return pattern == sig
 	}
-	return pattern == sig
+	if !strings.HasPrefix(sig, parts[0]) {
+		return false
+	}
+	rest := sig[len(parts[0]):]
+	for i := 1; i < len(parts); i++ {
+		p := parts[i]
+		if i == len(parts)-1 {
+			return strings.HasSuffix(rest, p)
+		}
+		j := strings.Index(rest, p)
+		if j < 0 {
+			return false
+		}
+		rest = rest[j+len(p):]
+	}
+	return true
+}
+
+// raceSignature condenses a race detector report into a signature: the first
+// library frames (outside the simulator and the harness) of both accesses.
+func raceSignature(report string) (string, string) {
+	i := strings.Index(report, "WARNING: DATA RACE")
+	if i < 0 {
+		return "", ""
+	}
+	rep := report[i:]
+	if j := strings.Index(rep[10:], "=================="); j > 0 {
+		rep = rep[:j+10]
+	}
+	var tops []string
+	for _, blk := range strings.Split(rep, "\n\n") {
+		lines := strings.Split(blk, "\n")
+		if len(lines) == 0 {
+			continue
+		}
+		head := strings.TrimSpace(lines[0])
+		if strings.HasPrefix(head, "WARNING") && len(lines) > 1 {
+			head = strings.TrimSpace(lines[1])
+			lines = lines[1:]
+		}
+		if !(strings.HasPrefix(head, "Read at") || strings.HasPrefix(head, "Write at") || strings.HasPrefix(head, "Previous") || strings.HasPrefix(head, "Atomic")) {
+			continue
+		}
+		kind := strings.Fields(head)[0]
+		if kind == "Previous" {
+			kind = "prev-" + strings.ToLower(strings.Fields(head)[1])
+		}
+		fn := "?"
+		for k := 1; k+1 < len(lines); k += 2 {
+			f := strings.TrimSpace(lines[k])
+			loc := strings.TrimSpace(lines[k+1])
+			if strings.HasPrefix(f, "runtime.") || strings.HasPrefix(f, "verifsim/") || strings.HasPrefix(f, "main.") || strings.HasPrefix(f, "sync") || strings.Contains(loc, "/usr/lib/go") {
+				continue
+			}
+			if p := strings.Index(f, "("); p > 0 && !strings.HasPrefix(f, "(") {
+				// keep receiver/method, drop argument list
+			}
+			f = strings.TrimSuffix(f, "()")
+			if p := strings.LastIndex(f, "/"); p >= 0 {
+				f = f[p+1:]
+			}
+			// generic instantiation noise
+			for strings.Contains(f, "[") && strings.Contains(f, "]") {
+				a, b := strings.Index(f, "["), strings.LastIndex(f, "]")
+				if a > b {
+					break
+				}
+				f = f[:a] + f[b+1:]
+			}
+			file := loc
+			if p := strings.LastIndex(file, "/"); p >= 0 {
+				file = file[p+1:]
+			}
+			if p := strings.Index(file, ":"); p > 0 {
+				file = file[:p]
+			}
+			fn = f + "@" + file
+			break
+		}
+		tops = append(tops, strings.ToLower(kind)+":"+fn)
+		if len(tops) == 2 {
+			break
+		}
+	}
+	sort.Strings(tops)
+	return "C19/race/" + strings.Join(tops, "|"), rep
 }
 
 func replayOnce(bin, prop string, file string) (*Outcome, error) {
 	cmd := exec.Command(bin, "-prop", prop, "-replay", file)
-	cmd.Env = append(os.Environ(), "GOMAXPROCS=2")
+	cmd.Env = append(os.Environ(), "GOMAXPROCS=2", "GORACE=halt_on_error=1 exitcode=66")
 	var stderr bytes.Buffer
 	cmd.Stderr = &stderr
 	out, err := cmd.Output()
+	if strings.Contains(stderr.String(), "WARNING: DATA RACE") {
+		sig, rep := raceSignature(stderr.String())
+		return &Outcome{Prop: prop, Verdict: "violation", Kernel: "race", Violations: []Violation{{Sig: sig, Detail: rep}}, History: strings.Split(rep, "\n")}, nil
+	}
 	if err != nil {
 		return nil, fmt.Errorf("%v: %s", err, tail(stderr.String(), 2000))
 	}
@@ -507,13 +603,13 @@ func main() {
 				detail = v.Detail
 			}
 		}
-		rf := map[string]any{"property": prop, "tier": tier, "seed": o.Seed, "index": o.Index, "signature": sig, "detail": detail,
+		rf := map[string]any{"property": prop, "tier": tier, "seed": o.Seed, "base_seed": seed, "index": o.Index, "signature": sig, "detail": detail,
 			"hash": o.Hash, "build": map[bool]string{false: "plain", true: "race"}[tc.race], "trace": o.History}
 		if len(o.Scenario) > 0 {
 			sc := minimise(bin, prop, tier, o, sig)
 			rf["scenario"] = sc
 		}
-		name := fmt.Sprintf("%s-%d-%s.json", prop, o.Seed, sanitize(sig))
+		name := fmt.Sprintf("%s-%d-%d-%s.json", prop, seed, o.Index, sanitize(sig))
 		path := filepath.Join(verifDir, "replays", name)
 		b, _ := json.MarshalIndent(rf, "", " ")
 		os.WriteFile(path, b, 0o644)
